@@ -103,14 +103,14 @@ class Ranker:
             for s in sibs:
                 cur = view.current(s) or 0
                 size_ok = F(cur) * 100 >= F(total) * size_thr
-                if abs(F(cur) * 100 - F(total) * size_thr) <= 100 + F(total) * size_thr / 10**9:
-                    self.amb.add(s)
+                if F(cur) * 100 != F(total) * size_thr and abs(F(cur) * 100 - F(total) * size_thr) <= 100 + F(total) * size_thr / 10**9:
+                    self.amb.add(s)  # within rounding of the threshold but not exactly on it
                 avg = temporal.get(s, {}).get("average_usage")
                 growth = F(0)
                 if avg is not None and math.floor(avg) != 0:
                     growth = F(cur) / math.floor(avg)
-                if avg is not None and math.floor(avg) != 0 and abs(growth - mgr) <= mgr / 10**5:
-                    self.amb.add(s)
+                if avg is not None and math.floor(avg) != 0 and growth != mgr and abs(growth - mgr) <= mgr / 10**5:
+                    self.amb.add(s)  # exactly on the configured ratio is judged: ">= min_growth_ratio" includes equality
                 grow_ok = growth >= mgr and eff[s] >= gthr
                 out[s] = (eff[s] if size_ok else F(0), growth if grow_ok else F(0), eff[s])
             return out
